@@ -1313,6 +1313,14 @@ class Evaluator:
                 return ("slice", lo, hi, st)
             if nm == "builtins.getattr" and len(args) in (2, 3) and args[1][0] == "const" and isinstance(args[1][1], str) and not kwargs:
                 return self.attr(args[0], args[1][1], fr)
+            # jax.numpy function spellings of the arithmetic operators (element-wise, bit-identical to the operator forms)
+            if nm.startswith("jax.numpy.") and not kwargs:
+                jop = nm.rsplit(".", 1)[1]
+                JBIN = {"add": "+", "subtract": "-", "multiply": "*", "true_divide": "/", "divide": "/", "matmul": "@"}
+                if jop in JBIN and len(args) == 2:
+                    return ("binop", JBIN[jop], args[0], args[1])
+                if jop == "negative" and len(args) == 1:
+                    return ("unop", "-", args[0])
             # the operator module: function spellings of Python's own operators
             if nm.startswith("operator.") and not kwargs:
                 op = nm.split(".", 1)[1]
@@ -1356,7 +1364,9 @@ class Evaluator:
                     return C(r)
             if nm == "functools.partial" and args:
                 return ("partial", args[0], tuple(args[1:]), tuple(kwargs))
-            auto = self.auto_inline_private and nm.startswith("genjax.") and nm.rsplit(".", 1)[-1].startswith("_") \
+            # private helpers: a function with a private name, or any function of a private module (genjax._utils.helper)
+            private_mod = any(part.startswith("_") and not part.startswith("__") for part in nm.split(".")[1:-1])
+            auto = self.auto_inline_private and nm.startswith("genjax.") and (nm.rsplit(".", 1)[-1].startswith("_") or private_mod) \
                 and not nm.rsplit(".", 1)[-1].startswith("__") and nm not in self.opaque
             if (nm in self.inline or auto) and depth < self.max_inline_depth and nm not in self._inlining:
                 r = self.p.lookup(nm)
@@ -1376,6 +1386,9 @@ class Evaluator:
                         return s.ret
                     finally:
                         self._inlining.pop()
+        # --- array method spellings of jax.numpy reductions: x.sum(...) is jnp.sum(x, ...)
+        if fn[0] == "attr" and fn[2] in ("sum", "mean", "prod") and fn[1][0] != "name":
+            return self.call_term(("name", "jax.numpy." + fn[2]), (fn[1],) + tuple(args), tuple(kwargs), fr, node)
         # --- vmapped call:  modular_vmap(f, ...)(args)
         if fn[0] == "call" and fn[1][0] == "name" and fn[1][1] in VMAP_NAMES:
             return self.sum_vmap(t, fr)
